@@ -1,6 +1,7 @@
 """C03 - every transfer between healthy peers completes (see transfer_common)."""
 import vlib
 import transfer_common as tc
+import e2e_common
 
 PROP = "C03"
 
@@ -14,8 +15,9 @@ def run(tier, seed):
     for viol in res['violations']:
         if viol['sig'].get('property') == 'C03':
             v.violation(viol['sig'], viol.get('replay'))
+    e2e_common.report_rules(v, PROP, res['trace_rules'])
     v.coverage = dict(states=mc['states'], transitions=mc['transitions'], traces_validated_against_impl=res['behaviours'],
-                      samples=res['samples'][:6],
+                      samples=res['samples'][:6], hook_traces_validated_by_tlc=res['trace_stats'], transfers_not_traced=res['extra'].get('transfers_not_traced'),
                       tlc=dict(runs=mc['runs'], checks="deadlock freedom + <>(both ok) under WF(Next), QUIC and mock visibility", negative_controls_refuted=neg),
                       grid=dict(rows_in_grid=res['grid_rows'], runs=res['behaviours'], outcomes=res['extra'].get('outcomes'),
                                 skipped_over_budget=res['extra'].get('skipped_over_budget')))
